@@ -201,6 +201,10 @@ def run(ck):
     n7 = link.send_list(radio, agg)
     # 'exactly once, in order': a payload that failed earlier must not be left in front of the next one (shared with C02/R02.4)
     n8 = link.send_prologue(radio, agg, rule="R01.8")
+    # write() chooses between "unchanged" and "pad/truncate" from the driver's cached copies of DYNPD / FEATURE / RX_PW_P0: the rules above
+    # hold for the radio only while every setter keeps those copies equal to the registers (C03's R03.3 obligations, re-run here)
+    from . import c03
+    n9 = c03.run_setters(radio, agg, contract.SETTERS)
     # FakeBLE.advertise takes caller buffers too
     ble = Radio(ck, "fake_ble", "FakeBLE")
     fadv = ck.prog.method(ble.cls, "advertise")
@@ -209,7 +213,8 @@ def run(ck):
     ck.floor("R01.1", "write() paths under dynamic payloads", n1, 6)
     ck.floor("R01.2", "static shaping paths", n2, 3)
     ck.floor("R01.3", "public methods with caller buffers", n3, 7)
-    ck.floor("R01.5", "SPI primitives", n5, 5)
+    ck.floor("R01.5", "SPI primitives", n5, 3)
     ck.floor("R01.6", "read scenarios", n6, 40)
     ck.floor("R01.7", "list/tuple paths", n7, 2)
     ck.floor("R01.8", "send() prologue scenarios", n8, 256)
+    ck.floor("R03", "setter scenarios (cached configuration follows the registers)", n9, 250)
